@@ -137,10 +137,20 @@ def _expand(rel: Rel, name, K):
     return out
 
 
+_GREC = [None]  # pass 1: records every (table, column) a reference is resolved to with certainty
+_GFIX = [frozenset()]  # pass 2: the statement's own evidence "table t has column c" (see columns())
+
+
+def _note(rel: Rel, name):
+    if _GREC[0] is not None and rel.kind == "base":
+        _GREC[0].add((rel.table, name))
+
+
 def _exposes(rel: Rel, name, K):
-    """does the relation positively expose this column name (derived output list / known metadata)?"""
+    """does the relation positively expose this column name (derived output list / known metadata / the same column
+    of the same table read with certainty elsewhere in the statement)?"""
     if rel.kind == "base":
-        return rel.table in K and name in K[rel.table]
+        return (rel.table in K and name in K[rel.table]) or (rel.table, name) in _GFIX[0]
     return any(n == name for n, _ in rel.cols)
 
 
@@ -153,9 +163,11 @@ def _resolve(scope, qual, name, K):
     if qual is not None:
         for r in scope:
             if qual in r.quals:
+                _note(r, name)
                 return _expand(r, name, K)
         return {f"{DEFAULT}.{qual}.{name}"}
     if len(scope) == 1:
+        _note(scope[0], name)
         return _expand(scope[0], name, K)
     known = [r for r in scope if _exposes(r, name, K)]
     if known:
@@ -217,8 +229,23 @@ def _star(rels, K):
 LCA_ON = [False]
 
 
+def _visit_pred(p, env, K, ds):
+    """subqueries of predicates yield no pairs, but the columns they read are evidence for pass 2"""
+    if p is None:
+        return
+    if p[0] in ("in", "exists", "cmp"):
+        eval_query(p[1], env, K, ds)
+    elif p[0] == "and":
+        _visit_pred(p[1], env, K, ds)
+        _visit_pred(p[2], env, K, ds)
+
+
 def eval_select(s, env, K, ds):
     scope = [_rel(r, env, K, ds) for r in s["from"]["rels"]]
+    if _GREC[0] is not None:
+        _visit_pred(s.get("where"), env, K, ds)
+        if isinstance(s.get("tail"), dict):
+            eval_query(s["tail"]["having"], env, K, ds)
     out = []
     saved = _LCA[0]
     _LCA[0] = {} if LCA_ON[0] else None
@@ -259,12 +286,35 @@ def eval_query(q, env, K, ds):
     return res
 
 
-def columns(st, K=None, default_schema=None, Kstar=None):
+def columns(st, K=None, default_schema=None, Kstar=None, evidence=()):
+    """two passes: the first collects the statement's own evidence - every (table, column) some reference is resolved
+    to with certainty (qualified, or the only relation in scope), in any scope of the statement; in the second that
+    evidence disambiguates unqualified references exactly as metadata would: in valid SQL a table known to have the
+    column is the one an otherwise ambiguous reference means. `evidence`: pairs known from other statements."""
     _KSTAR[0] = Kstar
     try:
+        _GREC[0], _GFIX[0] = set(), frozenset()
+        _columns(st, K, default_schema)
+        if st["kind"] == "update":
+            _visit_pred(st.get("where"), {}, K or {}, default_schema)
+        _GFIX[0] = frozenset(_GREC[0]) | frozenset(evidence)
+        _GREC[0] = None
         return _columns(st, K, default_schema)
     finally:
         _KSTAR[0] = None
+        _GREC[0], _GFIX[0] = None, frozenset()
+
+
+def evidence_of(st, K=None, default_schema=None):
+    """the (table, column) evidence a statement contributes (pass 1 of columns())"""
+    try:
+        _GREC[0], _GFIX[0] = set(), frozenset()
+        _columns(st, K, default_schema)
+        if st["kind"] == "update":
+            _visit_pred(st.get("where"), {}, K or {}, default_schema)
+        return frozenset(_GREC[0])
+    finally:
+        _GREC[0], _GFIX[0] = None, frozenset()
 
 
 def output_names(st, K=None, default_schema=None, Kstar=None):
@@ -348,6 +398,9 @@ def selftest():
     # unqualified over two relations: unresolved with candidates
     st2 = {"kind": "ctas", "target": T("tgt"), "collist": None, "q": q1(sel([col(None, "c1")], [base("t1"), base("t2")], "comma"))}
     assert columns(st2) == {("?c1[<default>.t1|<default>.t2]", "<default>.tgt.c1")}, columns(st2)
+    # the statement's own evidence disambiguates: a1.c1 says t1 has c1
+    st2b = {"kind": "ctas", "target": T("tgt"), "collist": None, "q": q1(sel([col("a1", "c1", "x"), col(None, "c1")], [base("t1", "a1"), base("t2", "a2")], "join"))}
+    assert columns(st2b) == {("<default>.t1.c1", "<default>.tgt.x"), ("<default>.t1.c1", "<default>.tgt.c1")}, columns(st2b)
     # metadata disambiguates; a known table lacking the column is never a candidate
     assert columns(st2, {"<default>.t1": ["c1"], "<default>.t2": ["z"]}) == {("<default>.t1.c1", "<default>.tgt.c1")}
     assert columns(st2, {"<default>.t2": ["z"]}) == {("?c1[<default>.t1|<default>.t2]", "<default>.tgt.c1")}
